@@ -52,11 +52,25 @@ def gen(rng, tier, n):
             insts = [[x, y], [y, x], [x, "s", y], [x, x], [y], [x, Num("7"), y, None]]
             ops.append({"op": "validate", "args": {"schema": doc, "insts": insts}, "meta": {"kw": 2}})
             continue
+        if r < 0.41:
+            # strings that spell numbers next to the numbers themselves, under the equality-deciding keywords; the instances arrive as
+            # float64 or, with UseNumber, as json.Number (whose Go kind is String)
+            sp = rng.choice(["1", "100", "0.5", "42", "-0.0", "1e2", "443"])
+            wrap = rng.choice([lambda x: x, lambda x: [x], lambda x: Obj([("id", x)]), lambda x: Obj([("a", [x, None])])])
+            kw = rng.choice([Obj([("enum", [wrap(sp), "zz", wrap(Num("7"))])]), Obj([("const", wrap(sp))]), Obj([("not", Obj([("const", wrap(sp))]))]),
+                             Obj([("enum", [wrap(Num(sp))])]), Obj([("if", Obj([("const", wrap(sp))])), ("then", False)]),
+                             Obj([("uniqueItems", True)]), Obj([("oneOf", [Obj([("const", wrap(sp))]), Obj([("const", wrap(Num(sp)))])])])])
+            insts = [wrap(sp), wrap(Num(sp)), wrap(Num("7")), wrap("7"), [wrap(sp), wrap(Num(sp))], [wrap(Num(sp)), wrap(Num(sp))], [sp, Num(sp), sp]]
+            ops.append({"op": "validate", "args": {"schema": kw, "insts": insts, "usenumber": rng.random() < 0.6}, "meta": {"kw": 2}})
+            continue
         c = gs.Ctx(rng, "2020", depth=rng.choice([1, 2, depth]))
         doc = gs.gen_document(c, gs.D2020_URI if rng.random() < 0.3 else None)
         huge = not gs.has_key(doc, {"multipleOf"})
         insts = [gs.gen_instance(rng, huge=huge) for _ in range(6)]
-        ops.append({"op": "validate", "args": {"schema": doc, "insts": insts}, "meta": {"kw": gs.count_keywords(doc)}})
+        args = {"schema": doc, "insts": insts}
+        if rng.random() < 0.2:
+            args["usenumber"] = True
+        ops.append({"op": "validate", "args": args, "meta": {"kw": gs.count_keywords(doc)}})
     return ops
 
 
